@@ -154,6 +154,10 @@ def extract_core(repo=None, use_cache=None):
             data = json.load(fh)
     meta = {"repo": repo, "source_hash": h, "driver_hash": dh, "cached": bool(cached),
             "extract_s": round(time.time() - t0, 2), "fact_file": fact}
+    if os.environ.get("LSV_NO_INLINE") != "1":
+        from . import inline
+        data, rep = inline.apply(data)
+        meta["inline"] = rep
     return Facts(data, meta)
 
 
